@@ -85,10 +85,15 @@ Start == phase = "build" /\ open = <<>> /\ n > 0 /\ phase' = "run" /\ UNCHANGED 
 \* ---------------- R-level: tree walking.  st = [c, i, trace, fuel]; executes lines lo..hi-1
 RECURSIVE RunBlock(_,_,_), RunIf(_,_,_,_), RunWhile(_,_), RunFor(_,_,_)
 Tick(st) == [st EXCEPT !.fuel = IF @ = 0 THEN 0 ELSE @ - 1]
+\* a second counter d (statements setd: d := 17, decd; condition "D": d > 0) gives the reference long inner loops that do
+\* not exhaust the counter c of the loops around them (only the recorded programs of leg C use it)
+TruthS(cond, st) == IF cond = "D" THEN st.d > 0 ELSE Truth(cond, st.c)
 RunBlock(lo, hi, st) ==
   IF lo >= hi \/ st.fuel = 0 THEN st
   ELSE LET ln == prog[lo+1] IN
-    IF ln.cmd = "emit" THEN RunBlock(lo+1, hi, Tick([st EXCEPT !.trace = Append(@, <<lo, st.c, st.i>>)]))
+    IF ln.cmd = "setd" THEN RunBlock(lo+1, hi, Tick([st EXCEPT !.d = 17]))
+    ELSE IF ln.cmd = "decd" THEN RunBlock(lo+1, hi, Tick([st EXCEPT !.d = IF @ > 0 THEN @ - 1 ELSE 0]))
+    ELSE IF ln.cmd = "emit" THEN RunBlock(lo+1, hi, Tick([st EXCEPT !.trace = Append(@, <<lo, st.c, st.i>>)]))
     ELSE IF ln.cmd = "dec" THEN RunBlock(lo+1, hi, Tick([st EXCEPT !.c = IF @ > 0 THEN @ - 1 ELSE 0]))
     ELSE IF lo \in DOMAIN struct /\ struct[lo].k = "if" THEN RunBlock(struct[lo].end + 1, hi, RunIf(lo, lo, 0, st))
     ELSE IF lo \in DOMAIN struct /\ struct[lo].k = "while" THEN RunBlock(struct[lo].end + 1, hi, RunWhile(lo, st))
@@ -100,15 +105,15 @@ RunIf(b, h, j, st) ==
       nextStart == IF j < Len(s.mids) THEN s.mids[j+1] ELSE s.end
       isElse == prog[h+1].cmd \in ElseNames_
   IN IF st.fuel = 0 THEN st
-     ELSE IF isElse \/ Truth(prog[h+1].cond, st.c) THEN RunBlock(h+1, nextStart, Tick(st))
+     ELSE IF isElse \/ TruthS(prog[h+1].cond, st) THEN RunBlock(h+1, nextStart, Tick(st))
      ELSE IF j < Len(s.mids) THEN RunIf(b, s.mids[j+1], j+1, Tick(st))
      ELSE st
 RunWhile(b, st) == IF st.fuel = 0 THEN st
-                   ELSE IF Truth(prog[b+1].cond, st.c) THEN RunWhile(b, RunBlock(b+1, struct[b].end, Tick(st)))
+                   ELSE IF TruthS(prog[b+1].cond, st) THEN RunWhile(b, RunBlock(b+1, struct[b].end, Tick(st)))
                    ELSE st
 RunFor(b, k, st) == IF k > Len(Arr) \/ st.fuel = 0 THEN st
                     ELSE RunFor(b, k+1, RunBlock(b+1, struct[b].end, Tick([st EXCEPT !.i = Arr[k]])))
-Ref == RunBlock(0, n, [c |-> C0, i |-> 0, trace |-> <<>>, fuel |-> Budget])
+Ref == RunBlock(0, n, [c |-> C0, i |-> 0, d |-> 0, trace |-> <<>>, fuel |-> Budget])
 
 \* ---------------- I-level
 \* instruction_query::find_commands (allow_recursive = TRUE for all three constructs)
